@@ -1403,7 +1403,26 @@ def install(ex):
         while isinstance(cur, Ref):
             r = cur
             cur = ex.load(r)
-        ex.store(r, StrVal(z3.simplify(z3.Concat(cur.t, ex.deref(args[1]).t))))
+        other = ex.deref(args[1])
+        if isinstance(cur, CharStr):
+            if isinstance(other, StrVal) and other.concrete() is not None:
+                other = CharStr(tuple(z3.IntVal(ord(ch)) for ch in other.concrete()))
+            if not isinstance(other, CharStr):
+                raise Unsupported("push_str of %r onto a character list" % (other,))
+            ex.store(r, CharStr(cur.chars + other.chars))
+            yield UNIT
+            return
+        ex.store(r, StrVal(z3.simplify(z3.Concat(cur.t, other.t))))
+        yield UNIT
+
+    @model(r"^(std::string::)?String::clear$", "String::clear")
+    def string_clear(ex, callee, args, rt):
+        r = args[0]
+        cur = ex.load(r)
+        while isinstance(cur, Ref):
+            r = cur
+            cur = ex.load(r)
+        ex.store(r, CharStr(()) if isinstance(cur, CharStr) else StrVal(""))
         yield UNIT
 
     @model(r"^core::str::<impl str>::parse$|^str::parse$", "str::parse::<i32|u32>: Ok(value) iff optional sign + one or more ASCII digits + in range (u32: no minus sign), else Err")
